@@ -417,6 +417,9 @@ func (r *Run) DoCmd(c Cmd) *Proc {
 	}
 	post := r.observe()
 	logChanged := !bytes.Equal(pre.LogBytes, post.LogBytes)
+	if c.Op == "prune" && !c.Yes && logChanged {
+		r.viol("C09", "dry-run-wrote", "log-bytes", "prune without --yes changed the log (%d -> %d bytes)", len(pre.LogBytes), len(post.LogBytes))
+	}
 
 	if c.Loose {
 		pred = Pred{Class: Either}
